@@ -1,9 +1,5 @@
 def _on_state_connect(self, _):
-    """Start the linktest timer."""
-    self._linktest_timer = threading.Timer(self._linktest_timeout, self._on_linktest_timer)
-    self._linktest_timer.daemon = True
-    self._linktest_timer.name = 'secsgem_hsmsProtocol_linktestTimer'
-    self._linktest_timer.start()
+    self._start_linktest_timer()
     if self._settings.is_active:
         self._select_req_thread = threading.Thread(target=self._send_select_req_thread, name='secsgem_hsmsProtocol_sendSelectReqThread')
         self._select_req_thread.daemon = True
